@@ -5,6 +5,7 @@ import (
 	"fmt"
 	"math/rand"
 	"runtime"
+	"strings"
 	"sync"
 	"sync/atomic"
 
@@ -113,6 +114,49 @@ func c16Recipe(seed int64) *poolRecipe {
 	add("Feature(Circle)", func() geojson.Object {
 		return geojson.NewFeature(geojson.NewCircle(geometry.Point{X: -2, Y: 2}, 150000, 32), `{"id":1}`)
 	})
+	// positions with Z and M ordinates, foreign members (the serialisers walk per-object side tables)
+	parsed := func(name, txt string, po *geojson.ParseOptions) {
+		add(name, func() geojson.Object {
+			o, err := geojson.Parse(txt, po)
+			if err != nil {
+				panic(name + ": " + err.Error())
+			}
+			return o
+		})
+	}
+	var lz, pz strings.Builder
+	for i := 0; i < 40; i++ {
+		if i > 0 {
+			lz.WriteByte(',')
+		}
+		fmt.Fprintf(&lz, "[%d,%d,%d,%d]", i%9-4, i/9-2, 100+i, 1000+i)
+	}
+	pz.WriteString("[[-6,-6,1],[6,-6,2],[6,6,3],[-6,6,4],[-6,-6,5]],[[-2,-2,11],[2,-2,12],[2,2,13],[-2,2,14],[-2,-2,15]],[[3,3,21],[4,3,22],[4,4,23],[3,3,24]]")
+	parsed("LineString-ZM-40", `{"type":"LineString","coordinates":[`+lz.String()+`],"bbox":[-4,-2,4,2]}`, nil)
+	parsed("Polygon-Z-holes", `{"type":"Polygon","coordinates":[`+pz.String()+`]}`, nil)
+	parsed("MultiLineString-Z", `{"type":"MultiLineString","coordinates":[[[0,0,1],[1,1,2]],[[2,2,7],[3,3,8],[4,3,9]],[[-1,0],[-2,1]]]}`, nil)
+	parsed("MultiPolygon-Z", `{"type":"MultiPolygon","coordinates":[[`+pz.String()+`],[[[10,10,1],[12,10,2],[12,12,3],[10,10,4]]]]}`, nil)
+	parsed("Feature(LineString-ZM)", `{"type":"Feature","id":"z","geometry":{"type":"LineString","coordinates":[`+lz.String()+`]},"properties":{"a":[1,2,{"b":null}]}}`, &geojson.ParseOptions{IndexGeometry: 1, IndexGeometryKind: geometry.RTree})
+	parsed("MultiPoint-Z", `{"type":"MultiPoint","coordinates":[[1,1,5],[2,2,6,7],[3,3]]}`, nil)
+	// nested collections: one query keeps several child searches open at a time
+	deep := `{"type":"Point","coordinates":[1,1]}`
+	for d := 0; d < 8; d++ {
+		deep = `{"type":"GeometryCollection","geometries":[{"type":"LineString","coordinates":[[` + fmt.Sprint(-3-d) + `,0],[` + fmt.Sprint(3+d) + `,1]]},` + deep + `,{"type":"MultiPoint","coordinates":[[0,0],[` + fmt.Sprint(d) + `,2]]}]}`
+	}
+	parsed("GeometryCollection-nested-8", deep, nil)
+	parsed("GeometryCollection-nested-8(child index)", deep, &geojson.ParseOptions{IndexChildren: 1})
+	var feats strings.Builder
+	for i := 0; i < 70; i++ {
+		if i > 0 {
+			feats.WriteByte(',')
+		}
+		if i%10 == 3 {
+			feats.WriteString(`{"type":"Feature","geometry":` + deep + `,"properties":{}}`)
+		} else {
+			fmt.Fprintf(&feats, `{"type":"Feature","geometry":{"type":"Point","coordinates":[%d,%d,%d]},"bbox":[%d,%d,%d,%d,%d,%d],"properties":{"i":%d}}`, i%10-5, i/10-3, i, i%10-5, i/10-3, i, i%10-5, i/10-3, i, i)
+		}
+	}
+	parsed("FeatureCollection-70(nested members)", `{"type":"FeatureCollection","features":[`+feats.String()+`]}`, nil)
 	return p
 }
 
@@ -164,16 +208,20 @@ type spinBarrier struct {
 	n     int32
 	count atomic.Int32
 	gen   atomic.Int32
+	abort atomic.Bool // a goroutine panicked: nobody waits any more
 }
 
 func (s *spinBarrier) wait() {
+	if s.abort.Load() {
+		return
+	}
 	g := s.gen.Load()
 	if s.count.Add(1) == s.n {
 		s.count.Store(0)
 		s.gen.Add(1)
 		return
 	}
-	for s.gen.Load() == g {
+	for s.gen.Load() == g && !s.abort.Load() {
 		runtime.Gosched()
 	}
 }
@@ -217,10 +265,7 @@ func c16Round(F, S []geojson.Object, alone [][][]string, G int, seed int64, roun
 			defer func() {
 				if r := recover(); r != nil {
 					logs[g] = append(logs[g], c16Rec{phase: "panic: " + fmt.Sprint(r), oi: -1})
-					for k := 0; k < 4*n; k++ { // release the others
-						bar.count.Store(0)
-						bar.gen.Add(1)
-					}
+					bar.abort.Store(true) // release the others
 				}
 			}()
 			rr := rand.New(rand.NewSource(seed*1000 + int64(round)*100 + int64(g)))
@@ -278,7 +323,6 @@ func c16Run(c *mon.Ctx) {
 	if rounds < 1 {
 		rounds = 1
 	}
-	const G = 32
 	var opsDone int64
 	for round := 0; round < rounds; round++ {
 		procs := []int{2, 16}[(round+c.Shard)%2]
@@ -292,6 +336,13 @@ func c16Run(c *mon.Ctx) {
 				before[i] = structDigest(F[i])
 			}
 		}
+		// every fourth round with three times as many goroutines (state shared between objects or calls
+		// shows when many calls are in flight at once)
+		G := 32
+		if round%4 == 3 {
+			G = 96
+		}
+		c.Count(fmt.Sprintf("rounds_with_%d_goroutines", G))
 		logs, counts := c16Round(F, S, alone, G, c.Seed, round)
 		for g := 0; g < G; g++ {
 			opsDone += counts[g]
@@ -327,6 +378,7 @@ func c16Run(c *mon.Ctx) {
 				alone = append(alone, o.JSON())
 			}
 		}
+		const G = 32
 		bad := make([][]string, G)
 		var wg sync.WaitGroup
 		for g := 0; g < G; g++ {
@@ -352,14 +404,14 @@ func c16Run(c *mon.Ctx) {
 		opsDone += int64(G * 400)
 	}
 	c.CountN("concurrent_ops", opsDone)
-	c.CountN("goroutines_per_round", G)
+	c.CountN("goroutines_per_round", 32)
 	c.EvalN(int(opsDone))
 	for oi := range objOps {
 		for i := 0; i < n; i++ {
 			c.NonTrivial(uint64(mon.NewH().S(objOps[oi].Name + "/" + kindOfName(recipe.names[i]))))
 		}
 	}
-	c.Sample(map[string]interface{}{"pool": recipe.names, "operations": len(objOps), "goroutines": G, "rounds": rounds})
+	c.Sample(map[string]interface{}{"pool": recipe.names, "operations": len(objOps), "goroutines": "32 (96 every fourth round)", "rounds": rounds})
 }
 
 func kindOfName(s string) string {
